@@ -290,8 +290,23 @@ theorem never_own_actor (us peer : SyncState) :
 session with the peers whose handshake succeeded: the needs computed per peer are cut with
 `chunk_range(_, k)`, queued per server, popped `d` at a time from the back, server after server,
 and filtered through `req_full` / `req_partials`, which are shared by all servers of the session
-(`k = d = 10` in the code; the theorems hold for all `k, d ≥ 1`).  This part of the model is tied
-to the code by reading only (the code is inline in a spawned task). -/
+(`k = d = 10` in the code; the theorems hold for all `k, d ≥ 1`).
+
+Tie to the code.  The code is inline in a task spawned by `parallel_sync`, so it is exercised through
+`parallel_sync` itself: the harness (`harness/src/c04.rs`, op `session`) calls the real
+`parallel_sync(agent, transport, members, our_sync_state)` of a real `Agent` + `Transport` against
+1–4 fake peers on real QUIC endpoints, each answering the handshake with a crafted `State` and
+recording every `SyncMessageV1::Request` it receives; the driver prints `syncSession 10 10 us peers`.
+The order of the servers (handshake completion order in the code, list order here) and the order of
+the `Partial` needs of one actor (iteration order of our inner `HashMap`; ascending version here) are
+forced by the harness; the whole sending order `(server, actor, need)` is compared whenever no server
+has needs for two or more actors.  The order of the ACTORS in one server's queue (iteration order of
+the `HashMap` that `compute_available_needs` returns; ascending here) cannot be forced: then the
+comparison is per server and actor when every such server is drained in its first turn (≤ 10 items),
+and of the order-independent unions otherwise.  The three theorems below are additionally checked as
+an oracle on the real messages of every session.  Peers whose handshake fails are simply not in
+`peers`.  Not modelled and not exercised: a failing `encode_sync_msg` / `write_buf` in the sending
+task (the server is dropped for the session while its ranges stay in `req_full`/`req_partials`). -/
 
 /-- **C04, observation "Request messages sent by parallel_sync".**  The union of what is actually
 sent over a session equals the union of the computed needs — per actor for versions, per actor and
